@@ -9,7 +9,11 @@ mod example_list_bool;
 pub struct JSONArrayOfBooleans;
 impl JSONArrayOfBooleans {
     pub fn parse_as_list_bool(json : String) -> Result<Vec<bool>, String> {
-        let items = RawUnprocessedJSONArray::split_into_vector_of_strings(json).unwrap();
+        let boxed_items = RawUnprocessedJSONArray::split_into_vector_of_strings(json);
+        if boxed_items.is_err() {
+            return Err(boxed_items.err().unwrap());
+        }
+        let items = boxed_items.unwrap();
         let mut list: Vec<bool> = vec![];
         for item in items {
             let boxed_parse = item.parse::<bool>();
